@@ -32,7 +32,8 @@ def main():
             r = subprocess.run(['patch', '-p1', '-s', '-d', scratch, '-i', os.path.join(d, 'patch.diff')],
                                capture_output=True, text=True)
             if r.returncode != 0:
-                results.append((sid, props, 'PATCH-FAILED', r.stdout + r.stderr))
+                results.append((sid, '/'.join(props), 'PATCH-FAILED', (r.stdout + r.stderr)[:200]))
+                print(sid, '/'.join(props), 'PATCH-FAILED', results[-1][3], flush=True)
                 continue
             env = dict(os.environ, VERIF_AEIC_SRC=os.path.join(scratch, 'src'),
                        VERIF_EVIDENCE_DIR=os.path.join(scratch, 'evidence'),
@@ -49,6 +50,11 @@ def main():
             shutil.rmtree(scratch, ignore_errors=True)
     caught = sum(1 for r in results if r[2] == 'CAUGHT')
     print(f'{caught}/{len(results)} caught')
+    by_change = {}
+    for sid, _prop, verdict, _d in results:
+        by_change[sid] = by_change.get(sid, False) or verdict == 'CAUGHT'
+    print(f'{sum(by_change.values())}/{len(by_change)} changes caught by at least one of their checks; '
+          f'not caught: {sorted(k for k, v in by_change.items() if not v)}')
     return 0
 
 
